@@ -439,7 +439,7 @@ impl Scenario for C20Lib {
             }
             _ => DestState::NotApplicable,
         };
-        let bp = BuilderPath { output_first: w.chance(1, 2), batch_paths: w.chance(1, 2), swap_backend: w.chance(1, 5), swap_late: w.chance(1, 2) };
+        let bp = BuilderPath { output_first: w.chance(1, 2), batch_paths: w.chance(1, 2), swap_backend: w.chance(1, 5), swap_late: w.chance(1, 2), legacy_path: mix(seed, 0x1e9ac7) % 5 == 0 };
         let mut simcfg = SimCfg::simple(root.fork("schedule").next_u64());
         simcfg.entropy = root.fork("hashkeys").next_u64();
         simcfg.stack_kb = *root.fork("layout").pick(&[2048usize, 8192]);
@@ -552,6 +552,9 @@ impl Scenario for C20Lib {
             out.count(&format!("fault_planned.{}", f.label()), 1);
         }
         out.count(&format!("out.{:?}", p.out), 1);
+        if p.bp.legacy_path && matches!(p.out, OutKind::File | OutKind::Dir) {
+            out.count("probe.destination_named_through_deprecated_set_output_path", 1);
+        }
         out.count(&format!("dest.{:?}", p.dest), 1);
         out.count(&format!("delivery.{:?}", p.delivery), 1);
         out.count(&format!("backend.{}", backend.short()), 1);
